@@ -470,3 +470,18 @@ HARMLESS += [
     dict(id="H-C16-treepacks-inline-type", prop="C16", file=RH, old="            let blob_type = pack.blob_type();\n            if blob_type == BlobType::Tree {", new="            if pack.blob_type() == BlobType::Tree {"),
     dict(id="H-C02-check-neg-cond", prop="C02", file=PR, old="            if *count == 0 {\n                return Err(RusticError::new(\n                    ErrorKind::Internal,\n                    \"Blob ID `{blob_id}` is missing in index files.\",", new="            if *count < 1 {\n                return Err(RusticError::new(\n                    ErrorKind::Internal,\n                    \"Blob ID `{blob_id}` is missing in index files.\","),
 ]
+
+TRF2 = "crates/core/src/blob/tree.rs"
+HARMLESS += [
+    # independent statements of the merge loop reordered
+    dict(id="H-C12-merge-reset-after-switch", prop="C12", file=TRF2, old="                nodes = Vec::new();\n                // use this node as new node\n                (node, num) = (new_node, new_num);", new="                // use this node as new node\n                (node, num) = (new_node, new_num);\n                nodes = Vec::new();"),
+    # from_pack: counters updated in the other order
+    dict(id="H-C02-from-pack-counter-order", prop="C02", file=PR, old="                        // blob is used in this pack\n                        pi.used_size += blob.location.length;\n                        pi.used_blobs += 1;", new="                        // blob is used in this pack\n                        pi.used_blobs += 1;\n                        pi.used_size += blob.location.length;"),
+    # restore write task: progress before the write
+    dict(id="H-C14-write-skip-binding-inline", prop="C14", file=RSF, old="                                if !skip {\n                                    dest.write_at(path, start, &data).unwrap();\n                                }", new="                                if skip {\n                                    // nothing to write\n                                } else {\n                                    dest.write_at(path, start, &data).unwrap();\n                                }"),
+]
+MUTATIONS += [
+    dict(id="C12-merge-loop-switch-keeps-old-input", prop="C12", file=TRF2, old="                nodes = Vec::new();\n                // use this node as new node\n                (node, num) = (new_node, new_num);", new="                nodes = Vec::new();\n                // use this node as new node\n                (node, num) = (new_node, num);"),
+    dict(id="C12-merge-loop-last-group-dropped", prop="C12", file=TRF2, old="                // no node left to proceed, merge nodes and quit\n                tree.add(merge_nodes(be, index, nodes, cmp, save, summary)?);\n                break;", new="                // no node left to proceed, merge nodes and quit\n                break;"),
+    dict(id="C12-merge-loop-next-from-wrong-input", prop="C12", file=TRF2, old="        if let Some(next_node) = tree_iters[num].next() {", new="        if let Some(next_node) = tree_iters[0].next() {"),
+]
